@@ -430,4 +430,131 @@ def r4_flag_confinement(a, tier):
     return rep
 
 
-RULES = [r1_key_derivation, r2_ownership, r3_observer_purity, r4_flag_confinement]
+MEMO_SETTINGS = {'memoization', 'prune_memos_on_cut', 'perlinememos', 'memo_cache_size'}
+SIZING_FUNCTIONS = {f'{CORE}._initialize_caches'}
+
+
+def _always_exits(block: list[ast.stmt]) -> bool:
+    if not block:
+        return False
+    last = block[-1]
+    if isinstance(last, (ast.Return, ast.Raise, ast.Continue, ast.Break)):
+        return True
+    if isinstance(last, ast.If):
+        return _always_exits(last.body) and _always_exits(last.orelse)
+    return False
+
+
+def _dependent_region(fn, pm, node: ast.If) -> list[ast.stmt]:
+    """statements whose execution depends on the outcome of the test of NODE: both branches, and - when a branch always
+    leaves - everything that follows the `if` up to the end of the function or of the enclosing loop"""
+    region = list(node.body) + list(node.orelse)
+    if not (_always_exits(node.body) or _always_exits(node.orelse)):
+        return region
+    cur: ast.AST = node
+    while id(cur) in pm:
+        par = pm[id(cur)]
+        for fld in ('body', 'orelse', 'finalbody'):
+            blk = getattr(par, fld, None)
+            if isinstance(blk, list) and cur in blk:
+                region += blk[blk.index(cur) + 1:]
+        if isinstance(par, (ast.FunctionDef, ast.AsyncFunctionDef, ast.For, ast.While)):
+            break
+        cur = par
+    return region
+
+
+def _memo_only_effect(s: ast.stmt) -> str | None:
+    """None when statement S only touches the memo store / locals; otherwise a description of the other effect"""
+    if isinstance(s, (ast.Pass, ast.FunctionDef, ast.Continue, ast.Break)):
+        return None
+    if isinstance(s, ast.Return):
+        return None if s.value is None or isinstance(s.value, (ast.Name, ast.Constant)) else f'returns `{norm(s.value)}`'
+    if isinstance(s, ast.Expr) and isinstance(s.value, ast.Constant):
+        return None
+    if isinstance(s, ast.Expr) and isinstance(s.value, ast.Call):
+        c = s.value
+        if dotted(c.func).split('.')[-1] == 'prune_dict' and c.args and norm(c.args[0]).endswith('._memos'):
+            return None
+        if isinstance(c.func, ast.Attribute) and norm(c.func.value).endswith('._memos'):
+            return None
+        if isinstance(c.func, ast.Attribute) and c.func.attr.startswith('_prune_memos'):
+            return None  # private pruning helper; its own accesses are decided by the ownership rule
+        return f'calls `{norm(c)[:60]}`'
+    if isinstance(s, (ast.Assign, ast.AnnAssign)):
+        targets = s.targets if isinstance(s, ast.Assign) else [s.target]
+        for t in targets:
+            if isinstance(t, ast.Name):
+                continue
+            if isinstance(t, ast.Subscript) and norm(t.value).endswith('._memos'):
+                continue
+            return f'stores `{norm(t)}`'
+        v = s.value
+        if v is not None and any(isinstance(x, ast.Call) for x in ast.walk(v)):
+            return f'evaluates `{norm(v)[:60]}`'
+        return None
+    if isinstance(s, ast.If):
+        for x in (*s.body, *s.orelse):
+            e = _memo_only_effect(x)
+            if e:
+                return e
+        return None
+    return f'executes `{norm(s)[:60]}`'
+
+
+def r5_settings_gate_only_the_store(a, tier):
+    rep = RuleReport(
+        'C04.R5',
+        'the memo settings (memoization, prune_memos_on_cut, perlinememos, memo_cache_size) decide only what is kept in the memo '
+        'store: in the engine every read of one of them is the test of an `if` (or sizes the store in _initialize_caches), and every '
+        'statement whose execution depends on that test - both branches and, after an early return, the rest of the function - only '
+        'stores into / prunes _memos, binds locals or returns; in particular cut() records the cut (state.cutseen) and traces it on '
+        'every path, whatever prune_memos_on_cut says',
+        floor=2,
+    )
+    for f in a.p.functions.values():
+        if not f.module.name.startswith(('tatsu.contexts', 'tatsu.peg', 'tatsu.input', 'tatsu.parsing')):
+            continue
+        reads = [n for n in walk_no_defs(f.node) if isinstance(n, ast.Attribute) and n.attr in MEMO_SETTINGS and isinstance(n.ctx, ast.Load)
+                 and 'config' in norm(n.value)]
+        if not reads:
+            continue
+        pm = a.resolver.parents(f)
+        for r in reads:
+            if f.qualname in SIZING_FUNCTIONS:
+                rep.add({'function': f.qualname, 'reads': r.attr, 'use': 'sizes the store'})
+                continue
+            # the enclosing `if` whose test holds the read (possibly through a local bound once)
+            cur: ast.AST = r
+            test_if = None
+            while id(cur) in pm:
+                par = pm[id(cur)]
+                if isinstance(par, ast.If) and any(x is r for x in ast.walk(par.test)):
+                    test_if = par
+                    break
+                if isinstance(par, (ast.Assign, ast.AnnAssign)) and isinstance(getattr(par, 'targets', [getattr(par, 'target', None)])[0], ast.Name):
+                    nm = (par.targets[0] if isinstance(par, ast.Assign) else par.target).id
+                    ifs = [n for n in walk_no_defs(f.node) if isinstance(n, ast.If) and any(isinstance(x, ast.Name) and x.id == nm for x in ast.walk(n.test))]
+                    others = [n for n in walk_no_defs(f.node) if isinstance(n, ast.Name) and n.id == nm and isinstance(n.ctx, ast.Load)
+                              and not any(any(x is n for x in ast.walk(i.test)) for i in ifs)]
+                    if len(ifs) == 1 and not others:
+                        test_if = ifs[0]
+                    break
+                cur = par
+            if test_if is None:
+                rep.add({'function': f.qualname, 'reads': r.attr, 'use': 'not a branch test'})
+                rep.fail(f.qualname, f'setting-use:{r.attr}', f'`{norm(pm.get(id(r), r))[:80]}` uses the memo setting {r.attr} for something else '
+                         f'than deciding whether to store/prune memos', f'{f.module.relpath}:{r.lineno}')
+                continue
+            region = _dependent_region(f, pm, test_if)
+            effects = [(s, e) for s in region for e in [_memo_only_effect(s)] if e]
+            rep.add({'function': f.qualname, 'reads': r.attr, 'test': norm(test_if.test), 'dependent_statements': len(region),
+                     'other_effects': [e for _, e in effects]})
+            for s_, e in effects:
+                rep.fail(f.qualname, f'setting-effect:{r.attr}:{e}', f'in {f.name}() a statement that {e} runs or not depending on the memo '
+                         f'setting `{norm(test_if.test)}`: the outcome of a parse then differs between settings that should only '
+                         f'change what is cached', f'{f.module.relpath}:{s_.lineno}')
+    return rep
+
+
+RULES = [r1_key_derivation, r2_ownership, r3_observer_purity, r4_flag_confinement, r5_settings_gate_only_the_store]
